@@ -203,6 +203,15 @@ def U_bundle():
         insts = [inst("m", "CB2", [("bq", t)]), inst("m2", "CB2", [("bq", t2)])]
         probes = tprobes + bprobes("c2", B2_LEAVES) + bprobes("c3", B2_LEAVES)
         out.append(("U_bundle", design({"CB2": cb2, "Top": mod(top_sigs, insts + probes, top_b + [bnd("c2", "B2"), bnd("c3", "B2")])}, bundles=bundles)))
+        # ... and the same with the instances made as copies of one prototype (`c, c2, c3 = 3 * B2()`)
+        mm = mod(top_sigs, insts + probes, top_b + [bnd("c2", "B2"), bnd("c3", "B2")])
+        mm["mulbundles"] = True
+        out.append(("U_bundle", design({"CB2": cb2, "Top": mm}, bundles=bundles)))
+    # three copies of one prototype, each given whole to an instance of its own (nothing reaches into them): three separate sets of nets
+    mm = mod([], [inst("m", "CB2", [("bq", Bund("c"))]), inst("m2", "CB2", [("bq", Bund("c2"))]), inst("m3", "CB2", [("bq", Bund("c3"))]),
+                  inst("m4", "CB2", [("bq", Bund("c2"))])], [bnd("c", "B2"), bnd("c2", "B2"), bnd("c3", "B2")], probes=False)
+    mm["mulbundles"] = True
+    out.append(("U_bundle", design({"CB2": cb2, "Top": mm}, bundles=bundles)))
     return out
 
 
